@@ -173,7 +173,7 @@ def do_mutant(idx, rel, site, root, skip_tests, only_checks):
 
 def main():
     ap = argparse.ArgumentParser()
-    ap.add_argument("--files", nargs="+", required=True)
+    ap.add_argument("--files", nargs="+", default=[])
     ap.add_argument("--max", type=int, default=40)
     ap.add_argument("--per-file", type=int, default=6)
     ap.add_argument("--jobs", type=int, default=4)
@@ -182,9 +182,23 @@ def main():
     ap.add_argument("--skip-tests", action="store_true")
     ap.add_argument("--checks", default="")
     ap.add_argument("--out", default="/var/tmp/automut-results.jsonl")
+    ap.add_argument("--from-jsonl", default="", help="re-run the mutants listed in a result file of tools/automut_calls.py")
+    ap.add_argument("--only-outcome", default="SURVIVED")
+    ap.add_argument("--grep", default="")
     a = ap.parse_args()
     rnd = random.Random(a.seed)
     todo = []
+    if a.from_jsonl:
+        for l in open(a.from_jsonl):
+            r = json.loads(l)
+            if r["outcome"] != a.only_outcome or (a.grep and a.grep not in r["file"] + ":" + r["func"]):
+                continue
+            for s_ in sites(os.path.join(REPO, r["file"])):
+                if s_[0] == r["func"] and s_[1] == r["line"] and s_[3] == r["old"] and s_[4] == r["new"]:
+                    lines_ = open(os.path.join(REPO, r["file"])).read().split("\n")
+                    if lines_[s_[1] - 1].strip() == r.get("src", lines_[s_[1] - 1].strip()):
+                        todo.append((r["file"], s_))
+        a.files = []
     for pat in a.files:
         for p in sorted(glob.glob(os.path.join(REPO, pat))):
             rel = os.path.relpath(p, REPO)
@@ -193,7 +207,8 @@ def main():
                 ss = [s for s in ss if s[5] in a.kinds.split(",")]
             rnd.shuffle(ss)
             todo += [(rel, s) for s in ss[:a.per_file]]
-    rnd.shuffle(todo)
+    if not a.from_jsonl:
+        rnd.shuffle(todo)
     todo = todo[:a.max]
     root = "/var/tmp/automut-%d" % os.getpid()
     os.makedirs(root, exist_ok=True)
